@@ -577,6 +577,8 @@ def exec_failsave(ctx, h, scratch):
     probes["d.fired"] = 1
     probes["d.api." + api] = 1
     res["states"].append("%s|%s|%s" % (rel, api, h["site"]))
+    if outcome.startswith("raised-other"):
+        probes["d.save_failed_on_its_own"] = 1
     if outcome == "ok":
         # the failure was swallowed (e.g. repacker fallback): then the save is a normal, complete one
         probes["d.failure_absorbed"] = 1
@@ -613,6 +615,8 @@ def _run_with_fault(h, target_font, saver, exc, fired):
                 out = "ok"
             except exc:
                 out = "raised"
+            except Exception as e:  # the save failed for a reason of its own: still a failed save
+                out = "raised-other:" + type(e).__name__
             fired[0] = fa.fired
         return out
     if site == "compressor":
@@ -627,7 +631,7 @@ def _run_with_fault(h, target_font, saver, exc, fired):
                 try:
                     saver()
                     return "ok"
-                except exc:
+                except Exception:
                     return "raised"
         if h["flavor"] == "woff2":
             from fontTools.ttLib import woff2
@@ -647,7 +651,7 @@ def _run_with_fault(h, target_font, saver, exc, fired):
                 try:
                     saver()
                     return "ok"
-                except exc:
+                except Exception:
                     return "raised"
         raise _Skip("no-compressor")
     if site == "repacker":
